@@ -706,4 +706,243 @@ theorem selectB_rankB (bs : List Bool) (p : Nat) (h : bs.getD p false = true) :
       have := ih p h'
       cases b <;> simp [selectB, rankB] at this ⊢ <;> simp [this]
 
+/-! ### balanced-parentheses shape of the simple-cursor code of a value -/
+
+/-- `xs` is balanced and never dips more than `m` below its starting depth: a `find_close` scan at
+depth `≥ m` passes over it with the depth unchanged. -/
+def Pass (m : Nat) (xs : List Bool) : Prop :=
+  ∀ (rest : List Bool) (i d : Nat), m ≤ d → BP.scanClose (xs ++ rest) i d = BP.scanClose rest (i + xs.length) d
+
+theorem Pass.nil (m : Nat) : Pass m [] := by intro rest i d _; simp
+
+theorem Pass.mono {m m' : Nat} {xs : List Bool} (h : Pass m xs) (hm : m ≤ m') : Pass m' xs :=
+  fun rest i d hd => h rest i d (by omega)
+
+theorem Pass.append {m : Nat} {xs ys : List Bool} (hx : Pass m xs) (hy : Pass m ys) : Pass m (xs ++ ys) := by
+  intro rest i d hd
+  rw [List.append_assoc, hx _ _ _ hd, hy _ _ _ hd, List.length_append, Nat.add_assoc]
+
+theorem pass_delim : Pass 1 [false, true] := by
+  intro rest i d hd
+  have h0 : d ≠ 0 := by omega
+  simp only [List.cons_append, List.nil_append, BP.scanClose, h0, if_false, List.length_cons, List.length_nil]
+  have : d - 1 + 1 = d := by omega
+  rw [this]
+
+theorem pass_wrap {mid : List Bool} (h : Pass 1 mid) : Pass 0 (true :: true :: (mid ++ [false, false])) := by
+  intro rest i d _
+  simp only [List.cons_append, BP.scanClose, List.append_assoc]
+  rw [h _ _ _ (by omega)]
+  simp only [List.nil_append, BP.scanClose]
+  have h1 : d + 1 + 1 ≠ 0 := by omega
+  have h2 : d + 1 + 1 - 1 ≠ 0 := by omega
+  simp only [h1, h2, if_false, List.length_cons, List.length_append, List.length_nil]
+  have e1 : d + 1 + 1 - 1 - 1 = d := by omega
+  have e2 : i + 1 + 1 + mid.length + 1 + 1 = i + (mid.length + (0 + 1 + 1) + 1 + 1) := by omega
+  rw [e1, e2]
+
+theorem toksBp_append (a b : List Tok) : toksBp (a ++ b) = toksBp a ++ toksBp b := by
+  simp [toksBp]
+theorem toksBp_cons (t : Tok) (ts : List Tok) : toksBp (t :: ts) = tokBp t ++ toksBp ts := by
+  simp [toksBp]
+theorem toksBp_nil : toksBp [] = [] := rfl
+theorem toksBp_wsToks (w : Ws) : toksBp (wsToks w) = [] := by
+  induction w with
+  | nil => rfl
+  | cons c cs ih => simp [wsToks, toksBp, tokBp] at ih ⊢
+
+mutual
+  theorem val_pass : ∀ v : JVal, Pass 0 (toksBp v.toks) ∧
+      (v.isContainer = true → ∃ mid, toksBp v.toks = true :: true :: (mid ++ [false, false]) ∧ Pass 1 mid)
+    | .lit l => ⟨by simpa [JVal.toks, toksBp, tokBp] using Pass.nil 0, by simp [JVal.isContainer]⟩
+    | .num n => ⟨by simpa [JVal.toks, toksBp, tokBp] using Pass.nil 0, by simp [JVal.isContainer]⟩
+    | .str b => ⟨by simpa [JVal.toks, toksBp, tokBp] using Pass.nil 0, by simp [JVal.isContainer]⟩
+    | .arr0 ws => by
+      have hd : toksBp (JVal.arr0 ws).toks = true :: true :: ([] ++ [false, false]) := by
+        simp [JVal.toks, toksBp_cons, toksBp_append, toksBp_wsToks, toksBp_nil, tokBp]
+      exact ⟨by rw [hd]; exact pass_wrap (Pass.nil 1), fun _ => ⟨[], hd, Pass.nil 1⟩⟩
+    | .obj0 ws => by
+      have hd : toksBp (JVal.obj0 ws).toks = true :: true :: ([] ++ [false, false]) := by
+        simp [JVal.toks, toksBp_cons, toksBp_append, toksBp_wsToks, toksBp_nil, tokBp]
+      exact ⟨by rw [hd]; exact pass_wrap (Pass.nil 1), fun _ => ⟨[], hd, Pass.nil 1⟩⟩
+    | .arr ws0 v ws1 rest => by
+      have hd : toksBp (JVal.arr ws0 v ws1 rest).toks =
+          true :: true :: ((toksBp v.toks ++ toksBp rest.toks) ++ [false, false]) := by
+        simp [JVal.toks, toksBp_cons, toksBp_append, toksBp_wsToks, toksBp_nil, tokBp]
+      have hm : Pass 1 (toksBp v.toks ++ toksBp rest.toks) :=
+        Pass.append ((val_pass v).1.mono (by omega)) (items_pass rest)
+      exact ⟨by rw [hd]; exact pass_wrap hm, fun _ => ⟨_, hd, hm⟩⟩
+    | .obj ws0 k ws1 ws2 v ws3 rest => by
+      have hd : toksBp (JVal.obj ws0 k ws1 ws2 v ws3 rest).toks =
+          true :: true :: (([false, true] ++ toksBp v.toks ++ toksBp rest.toks) ++ [false, false]) := by
+        simp [JVal.toks, toksBp_cons, toksBp_append, toksBp_wsToks, toksBp_nil, tokBp]
+      have hm : Pass 1 ([false, true] ++ toksBp v.toks ++ toksBp rest.toks) :=
+        Pass.append (Pass.append pass_delim ((val_pass v).1.mono (by omega))) (members_pass rest)
+      exact ⟨by rw [hd]; exact pass_wrap hm, fun _ => ⟨_, hd, hm⟩⟩
+  theorem items_pass : ∀ r : JItems, Pass 1 (toksBp r.toks)
+    | .nil => by simpa [JItems.toks, toksBp] using Pass.nil 1
+    | .cons ws0 v ws1 rest => by
+      have hd : toksBp (JItems.cons ws0 v ws1 rest).toks = [false, true] ++ toksBp v.toks ++ toksBp rest.toks := by
+        simp [JItems.toks, toksBp_cons, toksBp_append, toksBp_wsToks, tokBp]
+      rw [hd]
+      exact Pass.append (Pass.append pass_delim ((val_pass v).1.mono (by omega))) (items_pass rest)
+  theorem members_pass : ∀ r : JMembers, Pass 1 (toksBp r.toks)
+    | .nil => by simpa [JMembers.toks, toksBp] using Pass.nil 1
+    | .cons ws0 k ws1 ws2 v ws3 rest => by
+      have hd : toksBp (JMembers.cons ws0 k ws1 ws2 v ws3 rest).toks =
+          [false, true] ++ [false, true] ++ toksBp v.toks ++ toksBp rest.toks := by
+        simp [JMembers.toks, toksBp_cons, toksBp_append, toksBp_wsToks, tokBp]
+      rw [hd]
+      exact Pass.append (Pass.append (Pass.append pass_delim pass_delim) ((val_pass v).1.mono (by omega)))
+        (members_pass rest)
+end
+
+/-! ### `find_close` on a container in context -/
+
+theorem scan_container (mid restB : List Bool) (i : Nat) (h : Pass 1 mid) :
+    BP.scanClose (true :: (mid ++ [false, false]) ++ restB) i 0 = some (i + mid.length + 2) := by
+  simp only [List.cons_append, List.append_assoc, BP.scanClose]
+  rw [h _ _ _ (by omega)]
+  simp [BP.scanClose]; omega
+
+theorem findClose_container (pre mid post : List Bool) (h : Pass 1 mid) :
+    BP.findClose (pre ++ (true :: true :: (mid ++ [false, false])) ++ post) pre.length =
+      some (pre.length + mid.length + 3) := by
+  have hget : (pre ++ (true :: true :: (mid ++ [false, false])) ++ post)[pre.length]? = some true := by
+    rw [List.append_assoc, List.getElem?_append_right (Nat.le_refl _)]; simp
+  have hdrop : (pre ++ (true :: true :: (mid ++ [false, false])) ++ post).drop (pre.length + 1) =
+      true :: (mid ++ [false, false]) ++ post := by
+    rw [List.append_assoc, List.drop_append]
+    simp
+  rw [BP.findClose, hget, if_pos rfl, hdrop, scan_container _ _ _ h]
+  congr 1; omega
+
+theorem select_last (ta tc tb : List Bool) :
+    selectB true (ta ++ (tc ++ [true]) ++ tb) (ta.count true + tc.count true) = some (ta.length + tc.length) := by
+  rw [List.append_assoc, selectB_append]
+  have h1 : ¬ (ta.count true + tc.count true < ta.count true) := by omega
+  simp only [h1, if_false, Nat.add_sub_cancel_left]
+  rw [selectB_append]
+  have h2 : tc.count true < (tc ++ [true]).count true := by simp
+  simp only [h2, if_true]
+  rw [selectB_append]
+  simp [selectB]; omega
+
+theorem tokTags_length (t : Tok) : (tokTags t).length = t.bytes.length := by
+  cases t <;> simp [tokTags, Tok.structural, Tok.bytes]
+
+theorem toksTags_eq (ts : List Tok) : toksTags ts = ts.flatMap tokTags := rfl
+
+theorem toksTags_append (a b : List Tok) : toksTags (a ++ b) = toksTags a ++ toksTags b := by
+  simp [toksTags]
+theorem toksBytes_append (a b : List Tok) : toksBytes (a ++ b) = toksBytes a ++ toksBytes b := by
+  simp [toksBytes]
+
+theorem toksTags_length (ts : List Tok) : (toksTags ts).length = (toksBytes ts).length := by
+  induction ts with
+  | nil => rfl
+  | cons t ts ih =>
+    have := tokTags_length t
+    simp only [toksTags, toksBytes, List.flatMap_cons, List.length_append] at ih ⊢
+    simp only [tokTags] at this
+    omega
+
+theorem tokBp_length (t : Tok) : (tokBp t).length = 2 * (tokTags t).count true := by
+  cases t <;> simp [tokBp, tokTags, Tok.structural, List.count_replicate]
+
+theorem toksBp_length (ts : List Tok) : (toksBp ts).length = 2 * (toksTags ts).count true := by
+  induction ts with
+  | nil => rfl
+  | cons t ts ih =>
+    have ht := tokBp_length t
+    rw [toksBp_cons, toksTags_eq, List.flatMap_cons, List.length_append, List.count_append,
+      ← toksTags_eq, ht, ih]
+    omega
+
+/-- A container's token sequence is an open bracket, …, a close bracket. -/
+theorem container_shape (c : JVal) (h : c.isContainer = true) :
+    ∃ (o : Tok) (inner : List Tok) (cl : Tok), c.toks = o :: (inner ++ [cl]) ∧
+      (o = .lbracket ∨ o = .lbrace) ∧ (cl = .rbracket ∨ cl = .rbrace) := by
+  cases c with
+  | lit l => simp [JVal.isContainer] at h
+  | num n => simp [JVal.isContainer] at h
+  | str b => simp [JVal.isContainer] at h
+  | arr0 ws => exact ⟨_, _, _, rfl, Or.inl rfl, Or.inl rfl⟩
+  | obj0 ws => exact ⟨_, _, _, rfl, Or.inr rfl, Or.inr rfl⟩
+  | arr ws0 v ws1 rest => exact ⟨_, _, _, rfl, Or.inl rfl, Or.inl rfl⟩
+  | obj ws0 k ws1 ws2 v ws3 rest => exact ⟨_, _, _, rfl, Or.inr rfl, Or.inr rfl⟩
+
+theorem open_tok_bytes (o : Tok) (ho : o = .lbracket ∨ o = .lbrace) :
+    ∃ ob, o.bytes = [ob] ∧ (ob = 0x7B#8 ∨ ob = 0x5B#8) ∧ tokTags o = [true] := by
+  rcases ho with rfl | rfl
+  · exact ⟨0x5B#8, rfl, Or.inr rfl, rfl⟩
+  · exact ⟨0x7B#8, rfl, Or.inl rfl, rfl⟩
+
+theorem close_tok_bytes (cl : Tok) (h : cl = .rbracket ∨ cl = .rbrace) :
+    cl.bytes.length = 1 ∧ tokTags cl = [true] := by
+  rcases h with rfl | rfl <;> exact ⟨rfl, rfl⟩
+
+/-- `find_close` at the open bracket of a container `c` occurring anywhere in a token sequence
+returns the position of `c`'s own close bracket. -/
+theorem findClose_in_context (f : Bool) (A B : List Tok) (c : JVal) (hc : c.isContainer = true) :
+    findClose (build f (toksBytes (A ++ c.toks ++ B))) (toksBytes (A ++ c.toks ++ B)) (toksBytes A).length =
+      some ((toksBytes A).length + (toksBytes c.toks).length - 1) := by
+  obtain ⟨o, inner, cl, htoks, ho, hcl⟩ := container_shape c hc
+  obtain ⟨mid, hbp, hpass⟩ := (val_pass c).2 hc
+  obtain ⟨ob, hob, hobv, hotag⟩ := open_tok_bytes o ho
+  obtain ⟨hclb, hcltag⟩ := close_tok_bytes cl hcl
+  -- shapes
+  have hbytesC : toksBytes c.toks = ob :: (toksBytes inner ++ cl.bytes) := by
+    rw [htoks]; simp [toksBytes, hob]
+  have htagsC : toksTags c.toks = (true :: toksTags inner) ++ [true] := by
+    rw [htoks, toksTags_eq]; simp [hotag, hcltag, toksTags_eq]
+  have htext : toksBytes (A ++ c.toks ++ B) = toksBytes A ++ (ob :: (toksBytes inner ++ cl.bytes)) ++ toksBytes B := by
+    rw [toksBytes_append, toksBytes_append, hbytesC]
+  have htags : toksTags (A ++ c.toks ++ B) = toksTags A ++ ((true :: toksTags inner) ++ [true]) ++ toksTags B := by
+    rw [toksTags_append, toksTags_append, htagsC]
+  have hbpall : toksBp (A ++ c.toks ++ B) = toksBp A ++ (true :: true :: (mid ++ [false, false])) ++ toksBp B := by
+    rw [toksBp_append, toksBp_append, hbp]
+  have hlenA : (toksTags A).length = (toksBytes A).length := toksTags_length A
+  have hlenI : (toksTags inner).length = (toksBytes inner).length := toksTags_length inner
+  have hbpA : (toksBp A).length = 2 * (toksTags A).count true := toksBp_length A
+  have hbpC : (toksBp c.toks).length = 2 * (toksTags c.toks).count true := toksBp_length c.toks
+  rw [hbp, htagsC] at hbpC
+  simp only [List.length_cons, List.length_append, List.count_append, List.count_cons, List.length_nil,
+    List.count_nil, beq_self_eq_true, if_true] at hbpC
+  have href := sreference_toks (A ++ c.toks ++ B)
+  -- the steps of `find_close`
+  have h1 : ¬ ((toksBytes A).length ≥ (toksBytes (A ++ c.toks ++ B)).length) := by
+    rw [htext]; simp
+  have h2 : (toksBytes (A ++ c.toks ++ B)).getD (toksBytes A).length 0#8 = ob := by
+    rw [htext, List.append_assoc, List.getD_eq_getElem?_getD, List.getElem?_append_right (Nat.le_refl _)]
+    simp
+  have h3 : structuralIndex (build f (toksBytes (A ++ c.toks ++ B))) (toksBytes A).length =
+      some ((toksTags A).count true) := by
+    rw [structuralIndex_build, href.1, htags]
+    have hg : (toksTags A ++ ((true :: toksTags inner) ++ [true]) ++ toksTags B).getD (toksBytes A).length false = true := by
+      rw [← hlenA, List.append_assoc, List.getD_eq_getElem?_getD, List.getElem?_append_right (Nat.le_refl _)]
+      simp
+    rw [hg, if_pos rfl, rankB, ← hlenA, List.append_assoc, List.take_left']
+    rfl
+  have h4 : bpFindClose (build f (toksBytes (A ++ c.toks ++ B))) ((toksTags A).count true * 2) =
+      some ((toksBp A).length + mid.length + 3) := by
+    rw [bpFindClose, build_eq]
+    simp only []
+    rw [bitsOf_pack, href.2.1, hbpall]
+    have : (toksTags A).count true * 2 = (toksBp A).length := by omega
+    rw [this, findClose_container _ _ _ hpass]
+  have h5 : ((toksBp A).length + mid.length + 3) / 2 =
+      (toksTags A).count true + (true :: toksTags inner).count true := by
+    simp only [List.count_cons, beq_self_eq_true, if_true]; omega
+  have h6 : structuralPos (build f (toksBytes (A ++ c.toks ++ B)))
+      ((toksTags A).count true + (true :: toksTags inner).count true) =
+      some ((toksBytes A).length + (toksBytes c.toks).length - 1) := by
+    rw [structuralPos_build, href.1, htags, select_last, hbytesC]
+    simp only [List.length_cons, List.length_append]
+    congr 1; omega
+  simp only [findClose, h1, if_false, h2]
+  have hne : ¬ (ob ≠ 0x7B#8 ∧ ob ≠ 0x5B#8) := by
+    rcases hobv with rfl | rfl <;> simp
+  simp only [hne, if_false, h3, h4, h5, h6]
+
 end SV.JsonSimple
